@@ -449,6 +449,9 @@ func (p *Path) callSSA(caller *frame, pos token.Pos, fn *ssa.Function, args []va
 			return zeroResults(fn.Signature)
 		}
 	}
+	if fn.Blocks == nil && fn.Pkg != nil {
+		fn.Pkg.Build() // lazily build dependency packages (idempotent, thread-safe)
+	}
 	if fn.Blocks == nil {
 		panic(unsupported{"no SSA body for " + fn.String()})
 	}
